@@ -9,6 +9,7 @@ package brokerlab
 import (
 	"encoding/json"
 	"fmt"
+	"net"
 	"sort"
 	"strings"
 	"testing"
@@ -61,7 +62,10 @@ type c08Env struct {
 	sentinel            int
 }
 
-func c08Setup() (*c08Env, error) {
+func c08Setup() (*c08Env, error) { return c08SetupOpts(nil) }
+
+// c08SetupOpts: watcherHook, if set, is applied to the server end of the presence watcher's transport.
+func c08SetupOpts(watcherHook func(sv *fakenet.Conn)) (*c08Env, error) {
 	b, err := NewBroker(Opts{})
 	if err != nil {
 		return nil, err
@@ -71,7 +75,16 @@ func c08Setup() (*c08Env, error) {
 	e.kRead = b.MustKey("#/", Perms("r"))
 	e.kPres = b.MustKey("#/", Perms("rwp"))
 	mk := func(name string) (*Client, error) {
-		c := b.Attach(name, nil)
+		var wrap func(net.Conn) net.Conn
+		if name == "watcher" && watcherHook != nil {
+			wrap = func(sv net.Conn) net.Conn {
+				if fc, ok := sv.(*fakenet.Conn); ok {
+					watcherHook(fc)
+				}
+				return sv
+			}
+		}
+		c := b.Attach(name, wrap)
 		if rc, err := c.Connect(name, "u-"+name, nil); err != nil || rc != 0 {
 			return nil, fmt.Errorf("connect %s: rc=%d %v", name, rc, err)
 		}
@@ -150,7 +163,10 @@ func linkReq(id uint16, key, name, channel string, sub bool) []byte {
 	return mqttref.Publish(id, "emitter/link/", body, 1, false)
 }
 
-var c08Filters = []string{"a/b/", "a/c/", "a/b/c/", "a/+/", "b/a/", "a/a/", "b/b/", "a/c/b/", "a/b/a/"}
+var c08Filters = []string{"a/b/", "a/c/", "a/b/c/", "a/+/", "b/a/", "a/a/", "b/b/", "a/c/b/", "a/b/a/", "c/c/", "a/b/b/a/", "a/c/c/a/"}
+
+// groups of three or more filters whose ssids fold to the same per-connection hash code
+var c08Colliding = [][]string{{"a/a/", "b/b/", "c/c/"}, {"a/b/c/", "a/c/b/", "b/a/c/", "c/a/b/"}, {"a/b/", "b/a/", "a/b/c/c/"}}
 
 func c08Session(r *vk.Rand, e *c08Env, tag string) []c08Pkt {
 	var s []c08Pkt
@@ -170,6 +186,19 @@ func c08Session(r *vk.Rand, e *c08Env, tag string) []c08Pkt {
 	n := r.Range(6, 11)
 	id := uint16(10)
 	var used []string
+	if r.Chance(40) { // a session that holds three or more colliding filters and removes one from the middle of the chain
+		g := c08Colliding[r.Intn(len(c08Colliding))]
+		for _, f := range g {
+			f := f
+			id++
+			used = append(used, f)
+			s = append(s, c08Pkt{desc: "SUBSCRIBE " + f, bytes: mqttref.Subscribe(id, e.kAll+"/"+f), apply: func(m *c08Model) { m.sub(f) }})
+		}
+		mid := g[1+r.Intn(len(g)-2)]
+		id++
+		s = append(s, c08Pkt{desc: "UNSUBSCRIBE " + mid, bytes: mqttref.Unsubscribe(id, e.kAll+"/"+mid), apply: func(m *c08Model) { m.unsub(mid) }})
+		n = r.Range(1, 4)
+	}
 	for i := 0; i < n; i++ {
 		id++
 		x := r.Intn(100)
@@ -480,4 +509,120 @@ func c08Diff(a, b map[string]bool) string {
 		d = d[:5]
 	}
 	return strings.Join(d, "; ")
+}
+
+// ---- a victim holding far more subscriptions than the presence queue has slots, behind slow watchers ----
+
+func TestC08Big(t *testing.T) {
+	rec := vk.New("C08", "big")
+	defer rec.Finish(t)
+	rec.Rule("case = a victim connection subscribes to 120-220 channels under the watched channel (a few SUBSCRIBE packets) and is then cut (DISCONNECT / half-close / abrupt close) while the watcher's socket takes ~2 ms per write (slower than the broker produces notifications), " +
+		"so that the close-time notifications exceed the 100-slot queue; after the broker has closed the connection and the logical queue barrier: the trie equals the pre-session dump, the connection counter is back, " +
+		"and the watcher holds exactly one subscribe and one unsubscribe per channel; non-trivial = every case; distinct = (count, ending, case)")
+	n := vk.N(6, 120)
+	for ci := 0; ci < n; ci++ {
+		if !vk.Mine(ci) {
+			continue
+		}
+		r := vk.NewRand(vk.Seed(), "C08big", ci)
+		env, err := c08SetupOpts(func(sv *fakenet.Conn) { sv.SetWriteHook(func(int) { time.Sleep(2 * time.Millisecond) }) })
+		if err != nil {
+			rec.Inconclusive("setup: " + err.Error())
+			continue
+		}
+		k := r.Range(120, 220)
+		ending := []string{"disconnect", "half-close", "abrupt"}[r.Intn(3)]
+		cl, sv := fakenet.Pair()
+		env.b.Svc.VerifAttach(sv)
+		v := &Client{Name: "victim", C: cl, Wait: 120 * time.Second}
+		if rc, err := v.Connect("bigvictim", "", nil); err != nil || rc != 0 {
+			rec.Inconclusive("victim connect")
+			env.b.Close()
+			continue
+		}
+		var topics []string
+		for i := 0; i < k; i++ {
+			topics = append(topics, fmt.Sprintf("%s/a/big/v%d/", env.kAll, i))
+		}
+		okSubs := true
+		for i := 0; i < len(topics) && okSubs; i += 40 {
+			j := i + 40
+			if j > len(topics) {
+				j = len(topics)
+			}
+			if rcs, err := v.SubscribeMany(topics[i:j]); err != nil || len(rcs) != j-i {
+				rec.Inconclusive(fmt.Sprintf("victim subscribe: %v", err))
+				okSubs = false
+			}
+		}
+		if !okSubs {
+			env.b.Close()
+			continue
+		}
+		switch ending {
+		case "disconnect":
+			v.Send(mqttref.Disconnect())
+		case "half-close":
+			cl.CloseWrite()
+		case "abrupt":
+			cl.Close()
+		}
+		select {
+		case <-sv.Closed():
+		case <-time.After(120 * time.Second):
+			rec.Inconclusive("broker did not close the big victim within the watchdog")
+			env.b.Close()
+			continue
+		}
+		cl.Close()
+		if err := env.barrier(); err != nil {
+			rec.Inconclusive("barrier: " + err.Error())
+			env.b.Close()
+			continue
+		}
+		w := map[string]interface{}{"subscriptions": k, "ending": ending}
+		nodes, d := env.dump()
+		if diff := c08Diff(d, env.baseline); diff != "" || nodes != env.baseNodes {
+			rec.Violation(ci, "big/left-behind", fmt.Sprintf("%d subscriptions, ending %s: trie differs from the pre-session dump: %s", k, ending, diff), w)
+		}
+		if c := env.b.Svc.VerifConnections(); c != env.baseConns {
+			rec.Violation(ci, "big/connection-counter", fmt.Sprintf("connections=%d, before %d", c, env.baseConns), w)
+		}
+		pubs, _ := env.watcher.Take()
+		subs, unsubs := map[string]int{}, map[string]int{}
+		for _, p := range pubs {
+			var n c08Note
+			if p.Topic != "emitter/presence/" || json.Unmarshal([]byte(p.Payload), &n) != nil {
+				continue
+			}
+			if _, persistent := env.ids[n.Who.ID]; persistent {
+				continue
+			}
+			if n.Event == "subscribe" {
+				subs[n.Channel]++
+			} else {
+				unsubs[n.Channel]++
+			}
+		}
+		missing, extra := 0, 0
+		for i := 0; i < k; i++ {
+			ch := fmt.Sprintf("a/big/v%d/", i)
+			if subs[ch] != 1 || unsubs[ch] != 1 {
+				if subs[ch] < 1 || unsubs[ch] < 1 {
+					missing++
+				} else {
+					extra++
+				}
+			}
+		}
+		rec.Add("big_notifications_checked", int64(2*k))
+		if missing > 0 || extra > 0 {
+			rec.Violation(ci, "big/presence-notifications", fmt.Sprintf("victim with %d subscriptions, ending %s: the watcher misses notifications for %d channels and has duplicates for %d (subscribe seen %d, unsubscribe seen %d)", k, ending, missing, extra, len(subs), len(unsubs)), w)
+		}
+		rec.Case(vk.Hash("big", k, ending, ci), true)
+		if rec.WantSample() {
+			rec.Sample(w)
+		}
+		env.b.Close()
+	}
 }
